@@ -108,14 +108,22 @@ KERNELS = [
     dict(name="get_remains_calls", file="base/_ea.py", cls="EvolutionaryAlgorithm", func="get_remains_calls",
          params=[], ret="Int",
          self_attrs={"_pop_size": ("pop_size", "Int"), "_iters": ("iters", "Int"), "_calls": ("calls", "Int")}),
+    # ---- Tree methods (a Tree value is its two parallel arrays: node identifiers and arities)
+    dict(name="Tree_subtree_id", file="base/_tree.py", cls="Tree", func="subtree_id", params=[("index", "Int")], ret="Arr",
+         self_tree=True, uses=["find_end_subtree_from_i"]),
+    dict(name="Tree_subtree", file="base/_tree.py", cls="Tree", func="subtree", params=[("index", "Int")], ret="Tree",
+         self_tree=True, uses=["find_end_subtree_from_i"]),
+    dict(name="Tree_concat", file="base/_tree.py", cls="Tree", func="concat", params=[("index", "Int"), ("other_tree", "Tree")], ret="Tree",
+         self_tree=True, tree_methods={"subtree_id": "Tree_subtree_id"}),
     dict(name="tournament_selection", file="utils/selections.py", func="tournament_selection",
          params=[("fitness", "Arr"), ("rank", "Arr"), ("tour_size", "Int"), ("quantity", "Int")], ret="Arr",
          ext_stream={"random_sample": "samples"}),
 ]
 
-LTY = {"Int": "Int", "Arr": "List Int", "Bool": "Bool", "Mat": "List (List Int)", "Self": "List Int"}
+LTY = {"Int": "Int", "Arr": "List Int", "Bool": "Bool", "Mat": "List (List Int)", "Self": "List Int", "Tree": "List (List Int)"}
+TREE_ATTR = {"_nodes": "nodes", "_n_args": "nargs"}
 DEFAULT = {"Int": "0", "Arr": "[]", "Bool": "false", "Mat": "[]"}
-RESERVED = ("end", "at", "from", "to", "in", "do", "then", "fun", "match", "with", "open", "by", "s", "us", "ns", "fuel", "rolls", "max", "min", "hi0", "samples", "self")
+RESERVED = ("end", "at", "from", "to", "in", "do", "then", "fun", "match", "with", "open", "by", "s", "us", "ns", "fuel", "rolls", "max", "min", "hi0", "samples", "self", "self_nodes", "self_nargs")
 
 
 class NotRecognised(Exception):
@@ -163,6 +171,8 @@ class Tr:
         self.ext_stream = cfg.get("ext_stream", {})
         self.self_state = cfg.get("self_state", [])
         self.method_uses = cfg.get("method_uses", {})
+        self.self_tree = bool(cfg.get("self_tree"))
+        self.tree_methods = cfg.get("tree_methods", {})
         self.uses = cfg.get("uses", [])
         self.streams = bool(cfg.get("streams"))
         self.roll_stream = bool(cfg.get("roll_stream"))
@@ -189,6 +199,8 @@ class Tr:
         if isinstance(e, ast.Constant):
             return "Bool" if isinstance(e.value, bool) else "Int"
         if isinstance(e, ast.Name):
+            if e.id == "self" and self.self_tree:
+                return "Tree"
             t = self.locals.get(e.id) or self.params.get(e.id)
             if t is None:
                 raise NotRecognised(f"unknown name {e.id}")
@@ -198,19 +210,23 @@ class Tr:
         if isinstance(e, ast.List):
             return "Arr"
         if isinstance(e, ast.Attribute):
+            if self.tree_attr(e) is not None:
+                return "Arr"
             dotted = self.self_path(e)
             if dotted is not None and dotted in self.self_attrs:
                 return self.self_attrs[dotted][1]
             return "Int"
         if isinstance(e, ast.Subscript):
-            if isinstance(e.slice, ast.Slice):
+            if isinstance(e.slice, ast.Slice) or is_np(e.value, "r_"):
                 return "Arr"
             return {"Mat": "Arr", "Arr": "Int"}.get(self.ty(e.value), "Int")
         if isinstance(e, ast.Call):
             f = e.func
             nm = callname(f)
             if isinstance(f, ast.Attribute) and f.attr == "copy":
-                return self.ty(f.value)
+                return "Tree" if self.is_tree_value(f.value) else self.ty(f.value)
+            if isinstance(f, ast.Name) and f.id == "Tree":
+                return "Tree"
             if is_np(f, "empty", "arange", "zeros", "empty_like", "array", "cumsum"):
                 return "Arr"
             if nm in ("sorted", "range"):
@@ -348,6 +364,34 @@ class Tr:
             if isinstance(c, ast.expr):
                 self.hoist(c, lines, env, guarded)
 
+    def tree_attr(self, e):
+        """`X._nodes` / `X._n_args` of a Tree value X (self, a parameter or a local) -> Lean expression, else None"""
+        if isinstance(e, ast.Attribute) and e.attr in TREE_ATTR and isinstance(e.value, ast.Name):
+            x, a = e.value.id, TREE_ATTR[e.attr]
+            if x == "self" and self.self_tree:
+                return f"self_{a}"
+            if self.params.get(x) == "Tree":
+                return f"{self.id(x)}_{a}"
+            if self.locals.get(x) == "Tree":
+                return f"s.{self.id(x)}__{a}"
+        return None
+
+    def is_tree_value(self, e):
+        if isinstance(e, ast.Name):
+            return (e.id == "self" and self.self_tree) or self.params.get(e.id) == "Tree" or self.locals.get(e.id) == "Tree"
+        return False
+
+    def tree_pair(self, e, env):
+        """a Tree-valued expression as (nodes, nargs) Lean expressions"""
+        if isinstance(e, ast.Call) and isinstance(e.func, ast.Attribute) and e.func.attr == "copy" and self.is_tree_value(e.func.value):
+            e = e.func.value
+        if isinstance(e, ast.Name) and self.is_tree_value(e):
+            mk = lambda a: self.tree_attr(ast.Attribute(value=e, attr=a))
+            return mk("_nodes"), mk("_n_args")
+        if isinstance(e, ast.Call) and isinstance(e.func, ast.Name) and e.func.id == "Tree" and len(e.args) == 2:
+            return self.E(e.args[0], env), self.E(e.args[1], env)
+        raise NotRecognised(f"tree expression {ast.unparse(e)}")
+
     @staticmethod
     def self_path(e):
         """`self.a.b` -> 'a.b'"""
@@ -417,6 +461,9 @@ class Tr:
         if isinstance(e, ast.List):
             return "[" + ", ".join(self.E(x, env) for x in e.elts) + "]"
         if isinstance(e, ast.Attribute):
+            ta = self.tree_attr(e)
+            if ta is not None:
+                return ta
             dotted = self.self_path(e)
             if dotted is not None and dotted in self.self_attrs:
                 return self.self_attrs[dotted][0]
@@ -461,13 +508,19 @@ class Tr:
             sym = " && " if isinstance(e.op, ast.And) else " || "
             return "(" + sym.join(self.B(v, env) for v in e.values) + ")"
         if isinstance(e, ast.Subscript):
+            if is_np(e.value, "r_"):
+                parts = e.slice.elts if isinstance(e.slice, ast.Tuple) else [e.slice]
+                if any(self.ty(x) != "Arr" for x in parts):
+                    raise NotRecognised("np.r_ of non-arrays")
+                return "(" + " ++ ".join(self.E(x, env) for x in parts) + ")"
             if isinstance(e.slice, ast.Slice):
                 sl = e.slice
-                if sl.step is not None or sl.lower is None or self.ty(e.value) != "Arr":
+                if sl.step is not None or self.ty(e.value) != "Arr":
                     raise NotRecognised(f"slice {ast.unparse(e)}")
+                lo = self.E(sl.lower, env) if sl.lower is not None else "(0 : Int)"
                 if sl.upper is None:
-                    return f"(Imp.dropFrom {self.E(e.value, env)} {self.E(sl.lower, env)})"
-                return f"(Imp.slice {self.E(e.value, env)} {self.E(sl.lower, env)} {self.E(sl.upper, env)})"
+                    return f"(Imp.dropFrom {self.E(e.value, env)} {lo})"
+                return f"(Imp.slice {self.E(e.value, env)} {lo} {self.E(sl.upper, env)})"
             vt = self.ty(e.value)
             if isinstance(e.slice, ast.UnaryOp) and isinstance(e.slice.op, ast.USub) and isinstance(e.slice.operand, ast.Constant) and e.slice.operand.value == 1 and vt == "Arr":
                 return f"(Imp.last {self.E(e.value, env)})"
@@ -544,6 +597,9 @@ class Tr:
                 else:
                     acc = self.oob(v, env)
             return acc
+        if isinstance(e, ast.Subscript) and is_np(e.value, "r_"):
+            parts = e.slice.elts if isinstance(e.slice, ast.Tuple) else [e.slice]
+            return bor(*[self.oob(x, env) for x in parts])
         if isinstance(e, ast.Subscript) and isinstance(e.slice, ast.Slice):
             sl = e.slice
             parts = [self.oob(e.value, env)]
@@ -654,9 +710,39 @@ class Tr:
                 tt = self.id(t.id)
                 L.append(f"{{ s with {tt} := Imp.geti rolls s.kr, dry := s.dry || decide (rolls.length ≤ s.kr), kr := s.kr + 1 }}")
                 return L
+            if isinstance(t, ast.Name) and self.locals.get(t.id) == "Tree":
+                env = self.pre(list(st.value.args) if isinstance(st.value, ast.Call) and isinstance(st.value.func, ast.Name) else [], L)
+                a, b = self.tree_pair(st.value, env)
+                n = self.id(t.id)
+                L.append(f"{{ s with {n}__nodes := {a}, {n}__nargs := {b} }}")
+                return L
+            if isinstance(t, ast.Tuple) and all(isinstance(el, ast.Name) for el in t.elts) and isinstance(st.value, ast.Call) \
+                    and isinstance(st.value.func, ast.Attribute) and isinstance(st.value.func.value, ast.Name) and st.value.func.value.id == "self" \
+                    and st.value.func.attr in self.tree_methods:
+                callee = self.tree_methods[st.value.func.attr]
+                env = self.pre(list(st.value.args), L)
+                tmpn = self.tmp("Arr")
+                args = " ".join(self.E(a_, env) for a_ in st.value.args)
+                L.append(f"(match {callee} self_nodes self_nargs {args} with | some v => {{ s with {tmpn} := v }} | none => {{ s with err := true }})")
+                L.append(f"{{ s with err := s.err || decide ((s.{tmpn}).length ≠ {len(t.elts)}) }}")
+                L.append("{ s with " + ", ".join(f"{self.id(el.id)} := Imp.geti s.{tmpn} ({k} : Int)" for k, el in enumerate(t.elts)) + " }")
+                return L
             if isinstance(t, ast.Name):
                 env = self.pre([st.value], L)
                 L.append(f"{{ s with {self.id(t.id)} := {self.Ex(st.value, env)} }}")
+                return L
+            if isinstance(t, ast.Attribute) and self.tree_attr(t) is not None and self.tree_attr(t).startswith("s."):
+                env = self.pre([st.value], L)
+                L.append(f"{{ s with {self.tree_attr(t)[2:]} := {self.E(st.value, env)} }}")
+                return L
+            if isinstance(t, ast.Subscript) and isinstance(t.slice, ast.Slice) and t.slice.step is None and t.slice.lower is not None and t.slice.upper is not None \
+                    and self.tree_attr(t.value) is not None and self.tree_attr(t.value).startswith("s."):
+                # X._nodes[l:r] = E : the segment is replaced (Python allows l > r and bounds past the end; both are flagged)
+                fld = self.tree_attr(t.value)[2:]
+                env = self.pre([st.value, t.slice.lower, t.slice.upper], L)
+                lo, hi = self.E(t.slice.lower, env), self.E(t.slice.upper, env)
+                L.append(f"{{ s with err := s.err || decide ({lo} < 0) || decide ({hi} < {lo}) || decide ((Imp.leni s.{fld}) < {hi}), "
+                         f"{fld} := (s.{fld}.take ({lo}).toNat) ++ {self.E(st.value, env)} ++ (s.{fld}.drop ({hi}).toNat) }}")
                 return L
             if isinstance(t, ast.Attribute) and self.self_path(t) in self.self_state:
                 env = self.pre([st.value], L)
@@ -805,6 +891,15 @@ class Tr:
                     raise NotRecognised("returned structure")
             walk(last.value)
             lines.append(f"{pad}if s.err || s.dry then none else some ([" + ", ".join(flatn) + "])")
+        elif isinstance(last, ast.Return) and self.cfg["ret"] == "Tree":
+            a, b = self.tree_pair(last.value, {})
+            lines.append(f"{pad}if s.err || s.dry then none else some ([{a}, {b}])")
+        elif isinstance(last, ast.Return) and self.cfg["ret"] == "Arr" and isinstance(last.value, ast.Tuple) and all(self.ty(x) == "Int" for x in last.value.elts):
+            L = []
+            env = self.pre(list(last.value.elts), L)
+            for ln in L:
+                lines.append(f"{pad}let s := {ln}")
+            lines.append(f"{pad}if s.err || s.dry then none else some ([" + ", ".join(self.E(x, env) for x in last.value.elts) + "])")
         elif isinstance(last, ast.Return):
             L = []
             env = self.pre([last.value], L)
@@ -828,8 +923,17 @@ class Tr:
         name = cfg["name"]
         body = self.ret([st for st in self.fn.body], 1)
         allf = {**{self.id(n): t for n, t in self.locals.items()}, **self.tmps, **{f"self{a}": "Int" for a in self.self_state}}
-        fields = "".join(f"  {n} : {LTY[t]} := {DEFAULT[t]}\n" for n, t in sorted(allf.items()))
-        params = " ".join(f"({self.id(n)} : {LTY[t]})" for n, t in cfg["params"])
+        allf2 = {}
+        for n, t in allf.items():
+            if t == "Tree":
+                allf2[n + "__nodes"] = "Arr"
+                allf2[n + "__nargs"] = "Arr"
+            else:
+                allf2[n] = t
+        fields = "".join(f"  {n} : {LTY[t]} := {DEFAULT[t]}\n" for n, t in sorted(allf2.items()))
+        params = " ".join((f"({self.id(n)}_nodes {self.id(n)}_nargs : List Int)" if t == "Tree" else f"({self.id(n)} : {LTY[t]})") for n, t in cfg["params"])
+        if self.self_tree:
+            params = "(self_nodes self_nargs : List Int) " + params
         if self.self_state:
             params = "(self : List Int) " + params
         extra = " ".join(f"({v} : {LTY[t]})" for v, t in list(self.self_attrs.values()) + list(self.ext.values()))
@@ -842,7 +946,7 @@ class Tr:
         if self.roll_stream:
             extra += " (rolls : List Int)"
         extra += "".join(f" ({v} : List (List Int))" for v in self.ext_stream.values())
-        imports = "".join(f"import TFV.Generated.Src.{u}\n" for u in list(self.uses) + list(self.method_uses.values()))
+        imports = "".join(f"import TFV.Generated.Src.{u}\n" for u in list(self.uses) + list(self.method_uses.values()) + list(self.tree_methods.values()))
         fuel = f"  let fuel : Nat := {cfg['fuel']}\n" if cfg.get("fuel") else ""
         return (f"/- GENERATED by harness/extract/py2lean.py from /repo/src/thefittest/{cfg['file']} ({(cfg.get('cls') + '.') if cfg.get('cls') else ''}{cfg['func']})\n"
                 f"   on every run of the checks that depend on it. Do not edit. -/\n"
